@@ -839,7 +839,7 @@ theorem torn_three_edits (m : Nat) :
             ∧ openState Blue.Crc32c.crc32c ((es3.flatMap (encodeEdit Blue.Crc32c.crc32c)).take m) = .error .corrupt)) :=
   Blue.Damage.torn_three_edits m
 
-/-- **finding D-30, as found** (`itemsAsFound`: the reader before `fixes/mani-nonascii-poisons.diff`,
+/-- **finding D-30, as found** (`itemsAsFound`: the reader before `/repo commit ef4f524`,
     `maniNonAsciiPoisons = 0`): the non-ASCII check returned its error WITHOUT poisoning — after a
     line that is UTF-8 but not ASCII the next item is an edit made of the rest of the damaged
     transaction (here it lacks `a`), returned as genuine -/
